@@ -201,7 +201,7 @@ def build_overlay(scratch, files, known_keys=(), declared_keys=()):
         body = hf["src"]
         append(hf["target"],
                "#[cfg(kani)]\n#[allow(dead_code, unused_imports, unused_variables, unused_mut, non_snake_case)]\n"
-               "mod %s {\n    use super::*;\n%s\n}\n" % (hf["mod"], body))
+               "pub(crate) mod %s {\n    use super::*;\n%s\n}\n" % (hf["mod"], body))
     # placeholder tables so that the crate compiles before the dump
     dummy = ""
     for up, lo in (("PROTO", "proto"), ("HTTP", "http")):
